@@ -13,6 +13,7 @@
 import SH.Model.Norm
 import SH.Model.RawTag
 import SH.Gen.C11
+import SH.Lemmas.NormC11
 
 namespace SH.C11
 
@@ -265,5 +266,118 @@ example : raw32 (str "+5") = some 5 ∧ raw64 (str "+5") = none := by decide
 example : Decimal (str "-12") (-12) := Decimal.neg (str "12") (by decide) (by unfold AllDigits; decide)
 
 end Raw
+
+/-! ## Normalisation -/
+section Normalisation
+open SH.Norm
+
+set_option maxRecDepth 200000 in
+/-- the four sanity facts hold for the tables dumped from the Go toolchain on this run -/
+theorem gen_tables_sane : SH.Gen.C11.tables.Sane where
+  print_ascii := by decide
+  space_ascii := fun c h1 h2 =>
+    (by decide : ∀ c, c < 128 → 0x20 ≤ c → c ≤ 0x7e → SH.Gen.C11.tables.isSpace c = decide (c = 0x20)) c (by omega) h1 h2
+  print_fffd := by decide
+  space_fffd := by decide
+
+/-- "Forcing any byte string into a tag value yields a valid value (UTF-8, at most 128 bytes, trimmed, single ASCII
+    spaces, printable)": for every byte string, every IsSpace/IsPrint tables with the sanity facts and every length
+    limit, the forced value passes validStringValue — which checks the length, rejects malformed UTF-8, leading,
+    trailing, doubled and non-ASCII spaces and non-printable runes — and is at most maxLen bytes long. -/
+theorem force_valid (T : Tables) (hT : T.Sane) (maxLen : Nat) (b : List UInt8) :
+    valid T maxLen (force T maxLen b) = true ∧ (force T maxLen b).length ≤ maxLen := by
+  have h := force_valid_aux T hT maxLen b
+  refine ⟨h, ?_⟩
+  rw [valid_eq] at h
+  simp only [Bool.and_eq_true, decide_eq_true_eq] at h
+  exact h.1
+
+/-- "… that equals the input when the input was already valid" -/
+theorem force_id_on_valid (T : Tables) (hT : T.Sane) (maxLen : Nat) (b : List UInt8) (hv : valid T maxLen b = true) :
+    force T maxLen b = b := by
+  rw [valid_eq] at hv
+  simp only [Bool.and_eq_true, decide_eq_true_eq, Bool.or_eq_true] at hv
+  unfold force appendValid
+  by_cases h0 : b.isEmpty = true
+  · simp only [h0, ↓reduceIte, Option.getD_some]
+    cases b with
+    | nil => rfl
+    | cons _ _ => simp at h0
+  · simp only [h0, Bool.false_eq_true, ↓reduceIte, List.nil_append]
+    by_cases h1 : (decide (b.length ≤ maxLen) && fastOk b) = true
+    · simp [h1]
+    · simp only [h1, Bool.false_eq_true, ↓reduceIte]
+      have hvl : validL T b true = true := by
+        rcases hv.2 with h | h
+        · exact absurd h h0
+        · exact h
+      rw [slow_id T hT true maxLen (b.length + 1) b [] true (Nat.le_refl _) hvl (by simpa using hv.1)]
+      simp [trimLast]
+
+/-- "… and forcing is idempotent" -/
+theorem force_idempotent (T : Tables) (hT : T.Sane) (maxLen : Nat) (b : List UInt8) :
+    force T maxLen (force T maxLen b) = force T maxLen b :=
+  force_id_on_valid T hT maxLen _ (force_valid T hT maxLen b).1
+
+/-- ForceValidStringValue (the string version with the "already valid" shortcut) is the same function -/
+theorem forceStr_eq_force (T : Tables) (hT : T.Sane) (maxLen : Nat) (b : List UInt8) :
+    forceStr T maxLen b = force T maxLen b := by
+  unfold forceStr
+  by_cases hv : valid T maxLen b = true
+  · simp [hv, force_id_on_valid T hT maxLen b hv]
+  · simp [hv]
+
+/-- "strict normalization fails only on invalid UTF-8 …": on well-formed UTF-8 it succeeds, with the forced value
+    appended to dst … -/
+theorem strict_ok_on_utf8 (T : Tables) (maxLen : Nat) (dst b : List UInt8) (hu : utf8Valid b = true) :
+    strict T maxLen dst b = some (dst ++ force T maxLen b) :=
+  strict_of_utf8 T maxLen dst b hu
+
+theorem strict_fails_only_on_bad_utf8 (T : Tables) (maxLen : Nat) (dst b : List UInt8)
+    (h : strict T maxLen dst b = none) : utf8Valid b = false := by
+  cases hu : utf8Valid b with
+  | false => rfl
+  | true => rw [strict_of_utf8 T maxLen dst b hu] at h; cases h
+
+/-- "… and otherwise agrees with forcing": whenever it does not fail — also on malformed input whose damage lies
+    beyond the point where the output is full — the result is dst followed by the forced value. -/
+theorem strict_agrees_with_force (T : Tables) (maxLen : Nat) (dst b v : List UInt8)
+    (h : strict T maxLen dst b = some v) : v = dst ++ force T maxLen b :=
+  strict_some_eq T maxLen dst b v h
+
+/-- The converse of strict_fails_only_on_bad_utf8 is FALSE for the code as it is (and the property does not claim it):
+    malformed bytes after the 128-byte cut are never looked at. Statement kept for the record:
+      theorem strict_agrees (T) (b) : strict T maxLen [] b = if utf8Valid b then some (force T maxLen b) else none
+    Counterexample (maxLen 2 to keep it small; same with 128): -/
+example : utf8Valid [0x61, 0x62, 0x63, 0xFF] = false ∧
+    strict SH.Gen.C11.tables 2 [] [0x61, 0x62, 0x63, 0xFF] = some [0x61, 0x62] := by decide
+
+/-- a valid value is well-formed UTF-8 of at most maxLen bytes -/
+theorem valid_is_utf8 (T : Tables) (maxLen : Nat) (b : List UInt8) (hv : valid T maxLen b = true) :
+    utf8Valid b = true ∧ b.length ≤ maxLen := by
+  rw [valid_eq] at hv
+  simp only [Bool.and_eq_true, decide_eq_true_eq, Bool.or_eq_true] at hv
+  refine ⟨?_, hv.1⟩
+  rcases hv.2 with h | h
+  · cases b with
+    | nil => rfl
+    | cons _ _ => simp at h
+  · exact valid_utf8_aux T _ b true h
+
+/-! non-vacuity, on the toolchain's tables (bytes: 0x20 ' ', 0x09 tab, 0xC2 0xA0 = U+00A0, 0xE2 0x80 0x8B = U+200B) -/
+def G := SH.Gen.C11.tables
+set_option maxRecDepth 200000
+
+example : force G 128 [0x20, 0x61, 0x09, 0x20, 0xC2, 0xA0, 0x62, 0x20] = [0x61, 0x20, 0x62] := by decide
+example : force G 128 [0x61, 0xFF, 0xE2, 0x80, 0x8B] = [0x61, 0xEF, 0xBF, 0xBD, 0xEF, 0xBF, 0xBD] := by decide
+example : strict G 128 [0x70] [0x61, 0xFF] = none ∧ strict G 128 [0x70] [0x20, 0x61] = some [0x70, 0x61] := by decide
+example : valid G 128 [0x61, 0x20, 0xD0, 0x96] = true ∧ valid G 128 [0x61, 0x20, 0x20, 0x62] = false ∧
+    valid G 128 [0x61, 0x20] = false ∧ valid G 128 [0xED, 0xA0, 0x80] = false := by decide
+/-- truncation never splits a rune and never leaves a trailing space (limit 4 to keep it small) -/
+example : force G 4 [0x61, 0x20, 0xD0, 0x96, 0xD0, 0x96] = [0x61, 0x20, 0xD0, 0x96] ∧
+    force G 4 [0x61, 0x62, 0x63, 0x20, 0x64] = [0x61, 0x62, 0x63] ∧
+    force G 4 [0x61, 0x62, 0x63, 0xD0, 0x96] = [0x61, 0x62, 0x63] := by decide
+
+end Normalisation
 
 end SH.C11
